@@ -217,4 +217,19 @@ def run(ck):
                 bad.hex(), k, path, line, col, m.group(1) if m else None, loc),
                 {"mode": "asm", "harness_case": c, "expected": "a diagnostic in %s at %d:%d" % (path, line, col)})
             break
+    # K: the lexer model fed the valid prefix and then the failure (Lexer.lex_fault, theorem C17_read_fault_located)
+    # against Lexer::next on the same bytes: tokens, the read error and its location
+    from asmk import lex_k
+    ljobs = []
+    for (path, k, bad, c) in b_cases:
+        raw = dict(x.split("=", 1) for x in c.split("\t")[5].split("|"))
+        ljobs.append(("z80", bytes.fromhex(raw[path])))
+    for a in ("sm83", "6502"):
+        ljobs += [(a, d) for _, d in ljobs[:len(b_cases):7]]
+    for b in (b"\xff", b"\xc0\xaf", b"\xe2\x82", b"\xed\xa0\x80", b"\xf4\x90\x80\x80"):
+        for pre in (b"", b"nop\n", b'@db "x', b"; c ", b"ld a, $1", b"a \\\n", b"'", b"@d", b"%1", b"<", b"\n\n  "):
+            ljobs.append(("z80", pre + b)); ljobs.append(("6502", pre + b + b"\nnop\n"))
+    _, _, lbad = lex_k(ck, harness, model, ljobs)
+    ck.evaluations += len(ljobs)
+    ck.count("lex-fault-correspondence", len(ljobs))
     return ck
